@@ -17,8 +17,11 @@ from pathlib import Path
 
 VERIF = Path(__file__).resolve().parents[2]
 SPEC = VERIF / "spec"
-OUT = VERIF / "out"
-EVID = VERIF / "evidence"
+# VERIF_SCRATCH relocates scratch output AND evidence (used by bin/selftest so that runs against mutated copies of the
+# repository never touch the real evidence files and can run side by side)
+_SCR = os.environ.get("VERIF_SCRATCH")
+OUT = Path(_SCR) / "out" if _SCR else VERIF / "out"
+EVID = Path(_SCR) / "evidence" if _SCR else VERIF / "evidence"
 REPO = Path(os.environ.get("VERIF_REPO", "/repo")).resolve()
 HOOK_GUARD = "DISSECT_COBALTSTRIKE_VERIF"
 
@@ -394,12 +397,17 @@ def tlc_table(ctx: Ctx, module: str, consts: str, name: str = "table", env=None,
     return read_json(outf)
 
 
-def tlc_judge(ctx: Ctx, module: str, consts: str, records: list, name: str = "trace", env=None, timeout=1200):
+def tlc_judge(ctx: Ctx, module: str, consts: str, records: list, name: str = "trace", env=None, timeout=1200, canary=None):
     """code -> spec: TLC judges the recorded events with the reference operators.
 
-    Returns the list of (index into records, failed clause names)."""
+    Returns the list of (index into records, failed clause names).
+    `canary`: a deliberately corrupted event appended to the trace; the run is only believed if TLC rejects it
+    (demonstrates on every run that the trace specification constrains the recorded fields, not only their number)."""
     if not records:
         return []
+    n_real = len(records)
+    if canary is not None:
+        records = list(records) + [canary]
     tr = ctx.outdir / f"{name}.ndjson"
     write_ndjson(tr, records)
     outf = ctx.outdir / f"{name}.report.json"
@@ -416,8 +424,14 @@ def tlc_judge(ctx: Ctx, module: str, consts: str, records: list, name: str = "tr
     bad = rep.get("bad") or []
     if isinstance(bad, dict):
         bad = list(bad.values())
-    ctx.traces += len(records)
-    return [(b["i"] - 1, list(b["failed"]) if not isinstance(b["failed"], dict) else list(b["failed"].values())) for b in bad]
+    ctx.traces += n_real
+    out = [(b["i"] - 1, list(b["failed"]) if not isinstance(b["failed"], dict) else list(b["failed"].values())) for b in bad]
+    if canary is not None:
+        if not any(i == n_real for i, _ in out):
+            raise MachineryError(f"{module}: the corrupted canary event was accepted - the trace specification does not bind the recorded fields")
+        ctx.notes.setdefault("canaries_rejected", []).append(module)
+        out = [(i, f) for i, f in out if i != n_real]
+    return out
 
 
 # --------------------------------------------------------------------------- watchdog
